@@ -439,6 +439,9 @@ func (C09) Oracle(ops, impl, model []string) string {
 			}
 		case "wal.readfwd", "wal.readrev":
 			if !strings.HasPrefix(out, "n=") {
+				if i < len(model) && strings.HasPrefix(model[i], "n=") && out != model[i] {
+					return fmt.Sprintf("op %d (%s): entries the log holds cannot be read: %s (list model: %.60s)", i, o, out, model[i])
+				}
 				continue
 			}
 			parts := strings.SplitN(out, " ", 2)
